@@ -39,6 +39,30 @@ CHECKS = {
   text="Proved in Coq for every position: evaluate depends only on the piece sets (and their redundant unions) and the side to move, is negated when only the side to move is switched, and ignores castling rights, en-passant square, clocks and key. Mirror symmetry and the bound below the mate range (C16_bound_full visible, not assumed) are decided per run by the metamorphic relations on the real engine for every generated legal position (mirror, side flip, field perturbation, bound), and engine = model on all of them.",
   note=TB + " PARTIAL: mirror symmetry and bound are not yet theorems (mirror symmetry needs the hypothesis 'no pawn on back ranks', see DESIGN.md).",
   tech="Coq proof (purity, side antisymmetry) + metamorphic stream on the engine", ref="DESIGN.md 6 C16"),
+ 'C03': dict(
+  text="Proved in Coq for every position, depth, TT content, history, poll schedule and stop point: search() terminates and prints info lines followed by exactly one bestmove; when the PV is empty (stop before the first root move completes, depth 0, half-move clock 100) the fallback answer is the first legal move; all moves print as well-formed UCI notation (finite reflection). The remaining clause -- a non-empty PV starts with a legal move (C03_pv_case, visible, not assumed) -- is decided per run by the extracted monitor on the engine's bestmove in every scenario incl. a stop at every poll index. searchcore stream: the real engine (hooks on: scripted polls, full event trace) vs the extracted search model on cold searches, shuffled games with warm TT and full history, stop injected at every poll index of small searches, TT-bypassed searches; the engine's answers are judged by extracted Coq monitors.",
+  note=TB + " PARTIAL: legality of pv_table[0][0] is not yet a theorem. Real-time arrival of `stop` (thread + channel + clock) is runtime; the model covers it as 'some poll observes it'. Findings F1, F2 fixed in /repo (d6061b3, ac47405).",
+  tech="Coq proof (termination, output shape, fallback, UCI syntax) + trace-exact model/engine correspondence + extracted monitor", ref="DESIGN.md 6 C03"),
+ 'C06': dict(
+  text="Proved in Coq for every position / depth / TT / history / schedule: the search never exhausts the model's fuel (the ply guard bounds the recursion; part of the balance induction) and move ordering is a permutation. Per node (legal position, consistent key, reached from its parent by one legal move or a pass while not in check, ply limit) and per verdict (no legal move; mate iff in check) the statement C06_full (visible, not assumed) is decided per run by the extracted monitor mon_nodes on the real engine's hook trace, and engine trace = model trace event by event. searchcore stream: the real engine (hooks on: scripted polls, full event trace) vs the extracted search model on cold searches, shuffled games with warm TT and full history, stop injected at every poll index of small searches, TT-bypassed searches; the engine's answers are judged by extracted Coq monitors.",
+  note=TB + " PARTIAL: the per-node invariant is monitored on generated runs, not proved.",
+  tech="Coq proof (termination, sort permutation) + trace monitor extracted from Coq + trace-exact correspondence", ref="DESIGN.md 6 C06"),
+ 'C07': dict(
+  text="After fix 67301be: proved in Coq for every position, history, TT and schedule that a non-root negamax node whose own key occurs in the recorded history returns 0 before the TT is consulted (TT untouched, no TT hit, no node counted) and that the repetition decision is true exactly when the node is not the root and its own key is in the recorded history; C17 shows the recorded history seen at every node is the root's game history. On whole searches the monitor (bad07m/bad07f) judges the engine's hook traces on shuffled games with warm TTs. searchcore stream: the real engine (hooks on: scripted polls, full event trace) vs the extracted search model on cold searches, shuffled games with warm TT and full history, stop injected at every poll index of small searches, TT-bypassed searches; the engine's answers are judged by extracted Coq monitors.",
+  note=TB + " Keys stand for positions (a 64-bit collision between different positions is outside the model). Finding F5 fixed in /repo (67301be).",
+  tech="Coq proof (per-node repetition decision) + trace monitor + trace-exact correspondence", ref="DESIGN.md 6 C07"),
+ 'C09': dict(
+  text="Proved in Coq for every position, depth, TT content, history, poll predicate and stop schedule: when search() ends, the transposition table and the whole PV table (hence bestmove = pv_table[0][0]) equal those at the moment a poll first observed the stop; if none did, the search is not stopped (ghost snapshot invariant through negamax/quiescence: every path from a child's return to a PV insert or TT record passes a stopping check). Cadence and boundedness are decided per run: monitor mon_frame / mon_cadence on engine traces with the stop injected at every poll index. searchcore stream: the real engine (hooks on: scripted polls, full event trace) vs the extracted search model on cold searches, shuffled games with warm TT and full history, stop injected at every poll index of small searches, TT-bypassed searches; the engine's answers are judged by extracted Coq monitors.",
+  note=TB + " PARTIAL: 'promptly' -- quiescence never tests the flag, so bounded-but-not-small work remains after a stop; the polling cadence is monitored, not proved. Real-time arrival of stop is runtime.",
+  tech="Coq proof (frame invariant with ghost snapshot, all schedules) + trace monitor + correspondence", ref="DESIGN.md 6 C09"),
+ 'C12': dict(
+  text="Proved in Coq for every position, depth, TT, history and schedule: info lines of one search have strictly increasing depths and non-decreasing node counts and end with one bestmove; the rendered line has exactly the required shape. PV legality (C12_pv_legal_full, visible, not assumed) is decided per run: every PV of every info line of the real engine is replayed on the rules-of-chess specification (cold/warm TT, histories); info text of engine and model are compared literally (time masked). searchcore stream: the real engine (hooks on: scripted polls, full event trace) vs the extracted search model on cold searches, shuffled games with warm TT and full history, stop injected at every poll index of small searches, TT-bypassed searches; the engine's answers are judged by extracted Coq monitors.",
+  note=TB + " PARTIAL: PV legality is not yet a theorem; the real print! is tied to the model's renderer by textual comparison only.",
+  tech="Coq proof (monotone depths/nodes, format) + extracted legal-line monitor + correspondence", ref="DESIGN.md 6 C12"),
+ 'C17': dict(
+  text="Proved in Coq for every position, depth, TT content, history, poll schedule and stop point: every search (and every single call of negamax / quiescence) ends with ply and repetition index restored, the recorded history prefix and table length untouched, counters monotone; the position is an immutable value in the model. Per run the driver compares all 18 fields of the caller's Game and the repetition table before/after every search of every scenario (incl. every stop point). searchcore stream: the real engine (hooks on: scripted polls, full event trace) vs the extracted search model on cold searches, shuffled games with warm TT and full history, stop injected at every poll index of small searches, TT-bypassed searches; the engine's answers are judged by extracted Coq monitors.",
+  note=TB + " Modelled boundary: repetition table capacity 1000 (a write beyond it panics in Rust, is a no-op in the model; unreachable below ~930 plies of history). UCI-level commands (perft, eval, d, isready) are covered by C13's session model when built.",
+  tech="Coq proof (balance invariant by fuel induction, all schedules) + before/after comparison on the engine", ref="DESIGN.md 6 C17"),
 }
 
 def main():
